@@ -355,6 +355,14 @@ udp_remove_pipe(udp_pipe *p)
 		}
 	}
 	if (p->state < PIPE_CONN_DONE) {
+		nni_aio *aio;
+		// A dialed pipe that dies while still connecting takes the
+		// pending connect with it, so that the dialer can retry.
+		if (p->dialer &&
+		    ((aio = nni_list_first(&ep->connaios)) != NULL)) {
+			nni_aio_list_remove(aio);
+			nni_aio_finish_error(aio, NNG_ECONNREFUSED);
+		}
 		nni_list_node_remove(&p->node);
 		nni_pipe_rele(p->npipe);
 	}
